@@ -403,6 +403,13 @@ var syncTraceFuncs = []string{
 	"BitcoinNode.IsBusy", "BitcoinNode.Stop", "BitcoinNode.closeConnection", "BitcoinNode.run",
 }
 
+// the connection's send / receive machinery (C15, C14): queue locking, channel operations, goroutine starts
+var connTraceFuncs = []string{
+	"MessageChannel.Add", "MessageChannel.Open", "MessageChannel.Close",
+	"BitcoinNode.sendMessage", "BitcoinNode.sendOutgoing", "BitcoinNode.readIncoming", "BitcoinNode.handleMessage",
+	"TxManager.sendTx", "TxManager.Run", "TxManager.Stop",
+}
+
 // lockTrace lists, in source order, every mutex operation of a function (receiver.Method for Lock, Unlock,
 // RLock, RUnlock; "defer " prefix when deferred) together with the control structure they sit in ("if{", "else{",
 // "for{", "}") and the returns: the critical sections of the function as written. Used where a model treats a
@@ -508,6 +515,18 @@ func lockTrace(p *pkgInfo, fd *ast.FuncDecl, withChans bool) []string {
 			}
 		case *ast.RangeStmt:
 			n := len(out)
+			if withChans {
+				// ranging over a channel is a receive loop (the flush loops of sendOutgoing, the tx stream): kept
+				// even when its body is empty
+				out = append(out, "range "+strings.Join(strings.Fields(src(p, x.X)), "")+"{")
+				walk(x.Body.List)
+				out = append(out, "}")
+				low := strings.ToLower(out[n])
+				if len(out) == n+2 && !strings.Contains(low, "chan") {
+					out = out[:n]
+				}
+				break
+			}
 			out = append(out, "for{")
 			walk(x.Body.List)
 			out = append(out, "}")
@@ -1070,6 +1089,13 @@ func main() {
 			miss(fn)
 		}
 	}
+	for _, fn := range connTraceFuncs {
+		if fd := root.funcs[fn]; fd != nil {
+			fx.SyncTraces[fn] = lockTrace(root, fd, true)
+		} else {
+			miss(fn)
+		}
+	}
 	// C04: the order of the merkle / processor / store calls in BlockDownloader.handleBlock, and the
 	// `prune` argument of NewMerkleTree there (1 = true).
 	if hb := root.funcs["BlockDownloader.handleBlock"]; hb != nil {
@@ -1245,6 +1271,23 @@ func writeLean(path string, fx *facts) {
 	for _, k := range []string{"AddTxID", "AddTx", "GetTxRequests", "Clean"} {
 		wrList("locks_"+k, fx.CallOrders["locks_"+k])
 	}
+	b.WriteString("\n/-- mutex and channel operations of a connection's send / receive machinery, in source order. -/\n")
+	b.WriteString("def connTraces : List (String × List String) := [\n")
+	for i, k := range connTraceFuncs {
+		b.WriteString("  (" + leanStr(k) + ", [")
+		for j, x := range fx.SyncTraces[k] {
+			if j > 0 {
+				b.WriteString(", ")
+			}
+			b.WriteString(leanStr(x))
+		}
+		b.WriteString("])")
+		if i+1 < len(connTraceFuncs) {
+			b.WriteString(",")
+		}
+		b.WriteString("\n")
+	}
+	b.WriteString("]\n")
 	b.WriteString("\n/-- mutex and channel operations (with the control structure and returns around them) of the block download machinery, in source order. -/\n")
 	b.WriteString("def syncTraces : List (String × List String) := [\n")
 	for i, k := range syncTraceFuncs {
